@@ -266,6 +266,12 @@ func (f *Frame) fitPayload() ([]byte, error) {
 func (f *Frame) ReadFrom(r io.Reader) (n int64, err error) {
 	var nn int
 
+	// A reused frame may have been shrunk below the header of the frame that arrives now (a short unmasked frame, then a
+	// masked one with an extended length): the header accessors below slice into the full header.
+	if len(*f) < frameMaxHeaderLength {
+		*f = util.ExtendSlice(*f, frameMaxHeaderLength)
+	}
+
 	// read the header
 	nn, err = io.ReadFull(r, f.Header())
 	n += int64(nn)
